@@ -9,7 +9,7 @@
    PARTIAL: finiteness of the binary32 results is not a theorem (no rounding / overflow analysis);
    `expf` is an oracle; the binary32 evaluation is executed bit for bit by the correspondence run. *)
 From Coq Require Import Sorted Reals.
-From HpoV Require Import Gen.Consts Model.Base Model.Group Model.Onto Model.Query Model.Similarity Model.Script Proofs.DistP Proofs.AnnotP Proofs.C04P Proofs.C04R Proofs.C04B Proofs.AllPathsP.
+From HpoV Require Import Gen.Consts Model.Base Model.Group Model.Onto Model.Query Model.Similarity Model.Script Proofs.DistP Proofs.AnnotP Proofs.C04P Proofs.C04R Proofs.C04B Proofs.AllPathsP Proofs.AcyclicP Proofs.C04T.
 
 Theorem C04_self_is_one : forall F fadd fsub fmul fdiv fgt fis0 fzero fnzero fone ftwo fmone f_of_u16 fexp ic o k a b,
   t_id a = t_id b ->
@@ -82,6 +82,21 @@ Theorem C04_constructed_scores_nonnegative : forall icf o, constructed icf o ->
     simR (icRo o) g o k ta tb = Ok r -> (0 <= r)%R.
 Proof. exact constructed_similarity_nonneg. Qed.
 
+(* TOTALITY: for two terms of an acyclic ontology with exact caches, in every number structure whose exp
+   is defined, the six IC-based algorithms always return a score; Distance returns whenever the
+   distance fits u16 (usize_to_f32 panics beyond u16::MAX) *)
+Theorem C04_ic_similarities_return : forall F fadd fsub fmul fdiv fgt fis0 fzero fnzero fone ftwo fmone f_of_u16 fexp ic,
+  (forall x, exists y, fexp x = Ok y) -> forall o, qgood o -> forall g k a b,
+  In a (ar_terms (o_arena o)) -> In b (ar_terms (o_arena o)) -> g <> ADistance -> g <> AMutation ->
+  exists r, similarity F fadd fsub fmul fdiv fgt fis0 fzero fnzero fone ftwo fmone f_of_u16 fexp ic g o k a b = Ok r.
+Proof. exact ic_similarities_return. Qed.
+
+Theorem C04_distance_similarity_returns : forall F fadd fsub fmul fdiv fgt fis0 fzero fnzero fone ftwo fmone f_of_u16 fexp ic,
+  (forall x, exists y, fexp x = Ok y) -> forall o, qgood o -> acyclic (o_arena o) -> forall k a b,
+  In a (ar_terms (o_arena o)) -> In b (ar_terms (o_arena o)) -> (forall d, dist_term o a b = Ok (Some d) -> (d <= 65535)%N) ->
+  exists r, similarity F fadd fsub fmul fdiv fgt fis0 fzero fnzero fone ftwo fmone f_of_u16 fexp ic ADistance o k a b = Ok r.
+Proof. exact distance_similarity_returns. Qed.
+
 Print Assumptions C04_self_is_one.
 Print Assumptions C04_mutation_unannotated_zero.
 Print Assumptions C04_distance_ignores_kind.
@@ -92,3 +107,5 @@ Print Assumptions C04_symmetric.
 Print Assumptions C04_exact_scores_nonnegative.
 Print Assumptions C04_builder_scores_nonnegative.
 Print Assumptions C04_constructed_scores_nonnegative.
+Print Assumptions C04_ic_similarities_return.
+Print Assumptions C04_distance_similarity_returns.
